@@ -314,6 +314,17 @@ func c04run(env *core.Env, idx int) core.CaseResult {
 		res.Count("unsupported_op_skipped", 1)
 		return res
 	}
+	// warm-up: look every existing name up once with its valid spelling, so that caches keyed by name are populated
+	// (an invalid spelling must not be answered from state a valid look-up left behind)
+	for _, it := range c04items {
+		_, _ = hackpadfs.Stat(sub.fs, it.Path)
+		if f, err := sub.fs.Open(it.Path); err == nil {
+			_ = f.Close()
+		}
+		if it.Dir {
+			_, _ = hackpadfs.ReadDir(sub.fs, it.Path)
+		}
+	}
 	before := sub.state()
 	for _, name := range c04invalid(env) {
 		st := c04steps(cs.Op, name, "f")
